@@ -10,7 +10,14 @@ let run_xxh (c : case) : string =
   | "xxhs" ->
     let chunks = List.map bytes_of_hex (get_list c "chunks") in
     let st = List.fold_left xwrite xzero chunks in
-    Printf.sprintf "sum=%s ref=%s" (z_to_dec (xsum32_g false st)) (z_to_dec (xxh32_ref (List.concat chunks)))
+    (* running digests: the model's Sum32 after every write, and the reference digest of every prefix
+       (C13_stream: they coincide; the implementation must give the reference's) *)
+    let _, run, refs = List.fold_left (fun (s, acc, racc) ch ->
+        let s' = xwrite s ch in
+        let pre = (match racc with [] -> ch | (p, _) :: _ -> p @ ch) in
+        (s', z_to_dec (xsum32_g false s') :: acc, (pre, z_to_dec (xxh32_ref pre)) :: racc)) (xzero, [], []) chunks in
+    Printf.sprintf "sum=%s ref=%s sums=%s ref_sums=%s" (z_to_dec (xsum32_g false st)) (z_to_dec (xxh32_ref (List.concat chunks)))
+      (String.concat "," (List.rev run)) (String.concat "," (List.rev_map snd refs))
   | "xxhi" ->
     (* injected state, then writes, then Sum32; also the resulting state *)
     let v = List.map z_of_dec (get_list c "v") in
